@@ -130,14 +130,17 @@ where
 
 /-- `blockattributes.parse(attrs)` -/
 def battrParse (rec : Rec) (env : Env) (attrs : Str) : M Bool := do
-  if ← skipBlockAttributes then return true
-  let text ← replaceInline rec env attrs { macros := some true }
+  -- with safe-mode bit 4 a Block Attributes line is ignored altogether (no diagnostics either: the silent pass); a line
+  -- that only starts like one is not one in any safe mode
+  let skip ← skipBlockAttributes
+  let text ← if skip then macrosRender rec env attrs true else replaceInline rec env attrs { macros := some true }
   match Gen.P.blockattributes_parse_0.matchStart text with
   | none => return false
   | some m1 =>
     match Gen.P.blockattributes_parse_1.matchStart (text.drop m1.stop) with
     | none => return false
     | some m2 =>
+      if skip then return true
       let g1 ← m1.orEmpty 1
       if g1 != [] then
         modify fun s => { s with classes := strip (s.classes ++ " ".toList ++ strip g1) }
@@ -421,7 +424,14 @@ def lineFilter (rec : Rec) (env : Env) (d : LineDef) (mt : Match) : M Str := do
       modify fun s => { s with id := slug }
     let result ← replaceMatch rec env mt d.replacement { macros := some true }
     let g1 ← mt.str 1
-    return replaceAll result (g1 ++ ">".toList) (natToStr g1.length ++ ">".toList)
+    -- the level number goes into the two tags of the header, not into the title between them
+    let opentag := "<h".toList ++ g1 ++ ">".toList
+    let closetag := "</h".toList ++ g1 ++ ">".toList
+    if startsWith result opentag && endsWith result closetag then
+      let n := natToStr g1.length
+      return "<h".toList ++ n ++ ">".toList ++ (result.drop opentag.length).take (result.length - opentag.length - closetag.length)
+        ++ "</h".toList ++ n ++ ">".toList
+    return result
   | .anchor =>
     if ← skipBlockAttributes then pure []
     else replaceMatch rec env mt d.replacement { macros := some true }
@@ -724,6 +734,7 @@ def renderListItem (rec : Rec) (env : Env) : Nat → ItemInfo → Reader → Wri
         pure (((writer.write t).write text).write d.termCloseTag)
       else pure writer
     let t ← injectHtmlAttributes d.itemOpenTag
+    modify fun s => { s with opts := {} }
     let writer := writer.write t
     let text ← mt.str mt.ngroups
     let itemLines : Writer := ({} : Writer).write (text ++ "\n".toList)
